@@ -44,6 +44,13 @@ func genBasic(rng *rand.Rand, seed int64) *Scenario {
 		if rng.Intn(4) == 0 {
 			sc.Steps = append(sc.Steps, Step{At: 3*h + time.Duration(rng.Int63n(int64(3*h))), Kind: "rereg", Inst: i})
 		}
+		if rng.Intn(3) == 0 {
+			// a notification of the previous leader's record that has been under way for a while arrives while this
+			// instance is being promoted (inside the critical section that raises its flag, first or second term)
+			sc.Triggers = append(sc.Triggers, Trigger{Inst: i, Nth: 1 + rng.Intn(2), Phase: "flag", Step: Step{Kind: "latewev", Inst: i}})
+			// (notifications lag by up to three intervals: what a follower has seen of the leader's record is old news)
+			sc.WatchMax = 3 * h
+		}
 	}
 	if rng.Intn(2) == 0 {
 		who := 1 + rng.Intn(n)
@@ -406,6 +413,12 @@ func genFaults(rng *rand.Rand, seed int64) *Scenario {
 // genHealth: scripted health-check results over several terms (C12).
 func genHealth(rng *rand.Rand, seed int64) *Scenario {
 	h := []time.Duration{200 * ms, 500 * ms}[rng.Intn(2)]
+	// (a quarter of the scenarios: a heartbeat interval shorter than the health check's own time-out of 100 ms - every tick
+	//  still asks the checker, and only what the checker says counts; the checker answers at once there)
+	small := rng.Intn(4) == 0
+	if small {
+		h = 40 * ms
+	}
 	sc := &Scenario{Name: "health", Seed: seed, StoreTTL: 3 * h, Lat: map[int]LatSpec{0: {Min: 1 * ms, Max: h / 8}},
 		WatchMin: 1 * ms, WatchMax: h / 8, Sample: h / 2, NoOutside: true, NoPreempt: true, Responsive: true, MaxLat: h / 8}
 	is := baseInst(1, h)
@@ -432,6 +445,9 @@ func genHealth(rng *rand.Rand, seed int64) *Scenario {
 		// bias towards runs around the threshold
 		if run > 0 && run < m && rng.Intn(3) > 0 {
 			r = 0
+		}
+		if small && r >= 2 {
+			r = 1
 		}
 		if r == 0 || r == 5 {
 			run++
@@ -522,9 +538,18 @@ func genTamper(rng *rand.Rand, seed int64) *Scenario {
 	}
 	k := 1 + rng.Intn(4)
 	t := time.Duration(rng.Int63n(int64(3 * h)))
+	// (a quarter of the scenarios: nothing but removals, one after the other - from the second on they hit a leader that got
+	//  there through its watch loop, which is still running next to its heartbeat)
+	removals := rng.Intn(4) == 0
+	if removals {
+		k = 2 + rng.Intn(3)
+	}
 	for j := 0; j < k; j++ {
 		t += time.Duration(rng.Int63n(int64(3*h))) + time.Duration(1+rng.Intn(400))*time.Microsecond
-		if rng.Intn(4) == 0 {
+		if removals {
+			t += 2 * h
+		}
+		if removals || rng.Intn(4) == 0 {
 			sc.Steps = append(sc.Steps, Step{At: t, Kind: "extdelete", Key: "g"})
 		} else {
 			v := tamperValues[rng.Intn(len(tamperValues))]
